@@ -47,8 +47,19 @@ func ctxFor(m string) pongo2.Context {
 		"val": pongo2.AsValue(m),
 		"n":   5,
 		"e":   "",
+		// a type whose String method has a pointer receiver, reached BY VALUE in addressable places
+		"pts": []ptrStringerT{{m}, {"y"}},
+		"pp":  &pholder{T: ptrStringerT{m}},
+		// a value Go code marked safe (its own markup), to be combined with tainted text
+		"sv": pongo2.AsSafeValue("<u>"),
 	}
 }
+
+type ptrStringerT struct{ s string }
+
+func (p *ptrStringerT) String() string { return p.s }
+
+type pholder struct{ T ptrStringerT }
 
 type gen struct {
 	n     int
@@ -87,6 +98,12 @@ func sources() []source {
 		{name: "value-wrapper", expr: "val"},
 		{name: "method-value-result", expr: "st.Val"},
 		{name: "subscript", expr: `m["k"]`},
+		{name: "ptr-stringer-slice-item", expr: "pts.0"},
+		{name: "ptr-stringer-field", expr: "pp.T"},
+		{name: "ptr-stringer-iteration", wrap: func(g *gen, inner func(e string) string) string {
+			x := g.name("x")
+			return "{% for " + x + " in pts %}" + inner(x) + "{% endfor %}"
+		}},
 		{name: "map-key", wrap: func(g *gen, inner func(e string) string) string {
 			k := g.name("k")
 			return "{% for " + k + ", v in mk %}" + inner(k) + "{% endfor %}"
@@ -182,6 +199,17 @@ func carriers() []carrier {
 		{"concat-right", func(g *gen, e string, in func(string) string) string { return in("(" + e + ` + "")`) }},
 		{"concat-left", func(g *gen, e string, in func(string) string) string { return in(`("" + ` + e + ")") }},
 		{"concat-self", func(g *gen, e string, in func(string) string) string { return in("(" + e + " + " + e + ")") }},
+		// tainted text combined with markup that is legitimately safe (a macro result, a value marked safe by Go code)
+		{"concat-safe-macro-left", func(g *gen, e string, in func(string) string) string {
+			m := g.name("sm")
+			return "{% macro " + m + "() %}<i>{% endmacro %}" + in("("+m+"() + "+e+")")
+		}},
+		{"concat-safe-macro-right", func(g *gen, e string, in func(string) string) string {
+			m := g.name("sm")
+			return "{% macro " + m + "() %}<i>{% endmacro %}" + in("("+e+" + "+m+"())")
+		}},
+		{"concat-go-safe-left", func(g *gen, e string, in func(string) string) string { return in("(sv + " + e + ")") }},
+		{"concat-go-safe-right", func(g *gen, e string, in func(string) string) string { return in("(" + e + " + sv)") }},
 		{"default-arg", func(g *gen, e string, in func(string) string) string { return in("e|default:" + atom(e)) }},
 		{"add-arg", func(g *gen, e string, in func(string) string) string { return in(`"z"|add:` + atom(e)) }},
 		{"join-arg", func(g *gen, e string, in func(string) string) string { return in("l|join:" + atom(e)) }},
